@@ -13,6 +13,7 @@ impl Copy for V9Field {}
 //@ type src/variable_versions/v9.rs - OptionsTemplateScopeField
 //@ type src/variable_versions/v9.rs - TemplateField
 //@ type src/variable_versions/v9.rs - ScopeDataField
+//@ type src/variable_versions/v9.rs - OptionDataField
 pub uninterp spec fn datatype_of(f: V9Field) -> FieldDataType;
 impl V9Field {
     #[verifier::external_body] pub fn into(self) -> (r: FieldDataType) ensures r == datatype_of(self) { unimplemented!() }
@@ -27,29 +28,14 @@ impl FieldValue {
         ensures nom_view(r) == fv_from(remaining@, field_type, field_length),
     { unimplemented!() }
 }
-pub open spec fn scope_bytes(f: ScopeDataField) -> Seq<u8> {
-    match f { ScopeDataField::System(v) => v@, ScopeDataField::Interface(v) => v@, ScopeDataField::LineCard(v) => v@,
-              ScopeDataField::NetFlowCache(v) => v@, ScopeDataField::Template(v) => v@ }
 }
-pub open spec fn scope_kind_ok(f: ScopeDataField, t: ScopeFieldType) -> bool {
-    match (f, t) {
-        (ScopeDataField::System(_), ScopeFieldType::System) => true,
-        (ScopeDataField::Interface(_), ScopeFieldType::Interface) => true,
-        (ScopeDataField::LineCard(_), ScopeFieldType::LineCard) => true,
-        (ScopeDataField::NetFlowCache(_), ScopeFieldType::NetflowCache) => true,
-        (ScopeDataField::Template(_), ScopeFieldType::Template) => true,
-        _ => false,
-    }
-}
+//@ include v9_options_spec.rs
+verus! {
 impl ScopeDataField {
 //@ fn src/variable_versions/v9.rs - /impl ScopeDataField/ parse
 //@   result: r
 //@   before "let (new_input, field_value) =": broadcast use lemma_cloned_u8;
-//@   ensures: input@.len() < template_field.field_length || template_field.field_type is Unknown ==> r is Err
-//@   ensures: input@.len() >= template_field.field_length && !(template_field.field_type is Unknown) ==> (
-//@            r matches Ok((rest, f)) && scope_kind_ok(f, template_field.field_type)
-//@            && scope_bytes(f) =~= input@.subrange(0, template_field.field_length as int)
-//@            && rest@ == input@.subrange(template_field.field_length as int, input@.len() as int))
+//@   contract: stubs/v9_scopedatafield_parse.rs
 //@ end
 }
 impl TemplateField {
